@@ -23,10 +23,17 @@ import (
 )
 
 const (
-	repoDir  = "/repo"
-	verifDir = "/verif"
-	modPath  = "github.com/spikeekips/mitum"
+	repoDir = "/repo"
+	modPath = "github.com/spikeekips/mitum"
 )
+
+// verifDir is /verif; VERIF_DIR overrides it for development copies.
+var verifDir = func() string {
+	if d := os.Getenv("VERIF_DIR"); d != "" {
+		return d
+	}
+	return "/verif"
+}()
 
 type entryCfg struct {
 	Func        string         `json:"func"`
@@ -111,6 +118,9 @@ func main() {
 	}
 	if *workers == 0 {
 		*workers = runtime.NumCPU()
+		if w, err := strconv.Atoi(os.Getenv("VERIF_WORKERS")); err == nil && w > 0 {
+			*workers = w
+		}
 	}
 	var pc propCfg
 	b, err := os.ReadFile(filepath.Join(verifDir, "harness", "index.d", *prop+".json"))
